@@ -149,7 +149,8 @@ def check_matrix(c):
     herm = c['herm']
     if herm:
         Q = _orth(m, seed, 1)
-        sign = np.array([1 if j % 2 == 0 else -1 for j in range(k)])
+        hs = c.get('hs', 'alt')          # sign pattern of the eigenvalues, listed by decreasing modulus
+        sign = np.array([(1 if j % 2 == 0 else -1) if hs == 'alt' else (-1 if (j == 0 or hs == 'neg') else 1) for j in range(k)])
         A = (Q * (s * sign)) @ Q.T
         A = (A + A.T) / 2
     elif c.get('nearsym'):
@@ -394,6 +395,9 @@ def _matrices(tier, seed):
                     out.append(dict(m=m, n=n, spec=spec, herm=False, mag=mag, seed=seed))
                     if m == n:
                         out.append(dict(m=m, n=n, spec=spec, herm=True, mag=mag, seed=seed))
+                        if m >= 2:
+                            out.append(dict(m=m, n=n, spec=spec, herm=True, mag=mag, seed=seed, hs='negfirst'))     # the dominant eigenvalue is the negative one
+                            out.append(dict(m=m, n=n, spec=spec, herm=True, mag=mag, seed=seed, hs='neg'))          # negative definite
     for (m, n) in ((400, 6), (300, 5), (6, 400), (200, 2), (70, 2)):           # rows > 32 x columns (and the transpose)
         for spec in ('tail_noise', 'zerotail', 'graded', 'distinct'):
             out.append(dict(m=m, n=n, spec=spec, herm=False, mag=1.0, seed=seed))
